@@ -168,7 +168,7 @@ CLAIMED = {
         text="Config.tla RoundTrip/Precedence over FontConfig._fields (B3) x provenance; every field vector (boundary floats, optional/strings, multi-"
              "axis/master) is written by config.write and reloaded; glyphmap CSV rows over hostile file names, response-file expansion, codepoints<->"
              "file names, glyph-name injectivity/legality (GlyphSet.tla Distinct) and parts JSON round trips are replayed against the real functions "
-             "and through a real build directory (<output>.toml / .glyphmap).  The driver is re-run on a used build directory with other flags and the worker's Font.toml compared field by field; hostile characters are also tried as the first character of a CSV field.",
+             "and through a real build directory (<output>.toml / .glyphmap).  The driver is re-run on a used build directory with other flags and the worker's Font.toml compared field by field; hostile characters are also tried as the first character of a CSV field, and CsvRow.tla (writer / reader over character sequences, RoundTrip, the pre-fix writer as negative configuration) is replayed row by row into csv_line / load_from.",
         note="Trusted: TLC; feaLib's lexer as the judge of legal glyph names.  A 64/65-character naming defect was repaired with a fix: commit; the g_-prefix "
              "collision is a recorded known finding.",
         technique="TLA+ model of the driver->file->worker channel checked by TLC; vectors replayed through the real writer/loader pairs",
